@@ -19,6 +19,7 @@ import tempfile
 import types
 
 from common import clist, cZ, cbool, cpair, copt, cstr
+import c12_config
 
 PROP = 'C12'
 COQ_DIR = 'Restart'
@@ -34,6 +35,9 @@ ASSUMPTIONS = [
     'engine still looks dead when the final state is delivered',
     'duck-typed job/specification objects; ComponentState is the real class with its constructor bypassed',
     'threads: RepeatingEngine.restart thread is not started (threading.Thread replaced); time.sleep is a no-op',
+    'configuration side: layering and variable resolution of workflowAttributes.restartHookOn / shutdownOn are the real code\'s '
+    '(the effective lists are read off FlowIRConcrete.get_component_configuration and handed to the duck-typed job); '
+    'documents are minimal one-component FlowIR dictionaries, not packages on disk',
 ]
 HEADER = 'Require Import V.Restart.Model.\nOpen Scope Z_scope.'
 # how an exit comes about: the launched task reports it / the task generator raises (Engine.run: LaunchTask)
@@ -642,6 +646,14 @@ FRESH_CFG = {'max_restarts': 'absent', 'hook_file': 'HFNone', 'hook_loadable': F
              'is_sim': False, 'sim_restart': False, 'is_rep': False, 'shutdown_on': []}
 
 
+# restart-chain cases derived from an accepted configuration document (c12_config): (cfg, hist) -> the document
+DOC_OF = {}
+
+
+def case_key(cfg, hist):
+    return json.dumps([cfg, [list(e) for e in hist]], sort_keys=True)
+
+
 def explore(ctx, cases):
     drv = Driver()
     terms = []
@@ -663,7 +675,7 @@ def explore(ctx, cases):
             ctx.count('hist_len_%d' % min(len(hist), 13))
             for o in obs:
                 ctx.count('code_' + o[0].split(':')[0])
-            predicate(ctx, cfg, hist, obs, final, views, fresh)
+            predicate(ctx, cfg, hist, obs, final, views, fresh, extra=DOC_OF.get(case_key(cfg, hist)))
             malformed = any(':' in o[0] for o in obs) or (final is not None and final not in FIN) or \
                 any(v[0] is not None and v[0] not in REASONS for v in views)
             if malformed:
@@ -777,6 +789,14 @@ def dlmeso_cases(ctx):
     return hook_cases, chain_cases
 
 
+def config_stream(ctx, docs, schemas):
+    out = []
+    for cfg, hist, doc in c12_config.explore_config(ctx, docs, schemas, gen_cfg, gen_hist):
+        DOC_OF[case_key(cfg, hist)] = doc
+        out.append((cfg, hist))
+    return out
+
+
 def run(ctx):
     rng = ctx.rng
     ctx.rule = ('exhaustive: every history of length <= L (quick 3, thorough 4; a history is extended only while restarts are '
@@ -786,7 +806,11 @@ def run(ctx):
                 'configurations x random histories (length <= 12, all 11 hook behaviours, stability and run() oracles, 30% of the '
                 'SubmissionFailed/UnknownIssue exits produced by a failing launch); every exit of an ordinary engine goes through the '
                 'real Engine.run() launch/wait/_setExitReason pipeline; plus the real DLMESORestart on generated CONTROL files and the chain '
-                'with the fallback hook in a directory holding such a file; non-trivial = at least one restart initiated '
+                'with the fallback hook in a directory holding such a file; plus the configuration side: generated restartHookOn / shutdownOn '
+                'lists (all 8 exit reasons, 19 other spellings, non-strings, variable references; in the component, a platform override, '
+                'global / stage blueprints of two platforms, behind component / global / platform variables; either platform active) through '
+                'the real FlowIRConcrete.validate and the three schema flavours vs schema_accepts, and for every accepted document '
+                'restart-chain cases on the lists the real code computed, the hook answering "possible" after each listed reason and after Killed / Cancelled; non-trivial = at least one restart initiated '
                 '(hook cases: restart allowed); distinct by (cfg, history) / (reason, file)')
     cases = []
     # corpus: witnesses of fixed / open findings first
@@ -817,6 +841,9 @@ def run(ctx):
     for _ in range(nrand):
         cfg = gen_cfg(rng)
         cases.append((cfg, gen_hist(rng, cfg, rng.randint(1, 12))))
+    # the configuration side: the real FlowIR validation of restartHookOn / shutdownOn vs Restart.Config.schema_accepts;
+    # the lists of every ACCEPTED document become restart-chain cases with a hook that answers "restart possible"
+    cases.extend(config_stream(ctx, c12_config.documents(ctx), c12_config.schema_cases(ctx)))
     # de-duplicate the exhaustive part by effective prefix is not attempted; distinctness is counted by ctx.case
     explore(ctx, cases)
     explore_dlmeso(ctx, *dlmeso_cases(ctx))
@@ -828,7 +855,14 @@ def replay(ctx, path):
 
     def cf_of(x):
         return x if x in (None, 'dir') else (list(x[0]), bool(x[1]))
-    if c and c.get('dlmeso_hook'):
+    if c and c.get('config_document'):
+        # the document is validated again by the tree under test; the chain is driven only if it is (still) accepted
+        chains = config_stream(ctx, [(c['lists'], c['shutdown'], c['platform'])], [])
+        want = case_key(c['cfg'], c['hist']) if 'cfg' in c else None
+        explore(ctx, [x for x in chains if want is None or case_key(*x) == want] or chains)
+    elif c and c.get('config_schema'):
+        config_stream(ctx, [], [(c['flavor'], c['where'], [tuple(e) for e in c['entries']])])
+    elif c and c.get('dlmeso_hook'):
         explore_dlmeso(ctx, [(c['reason'], cf_of(c['control']))], [])
     elif c and c.get('dlmeso_chain'):
         explore_dlmeso(ctx, [], [(c['cfg'], cf_of(c['control']), [tuple(e) for e in c['dl_hist']])])
